@@ -61,3 +61,19 @@ void h_s4_b_to_znx128(void) {
   for (int k = 0; k < 4; ++k) __CPROVER_assert((((QQ / QS[k]) % QS[k]) * CRT[k]) % QS[k] == 1, "CRT constant is the inverse of Q/q_k mod q_k");
   VACUITY_CANARY();
 }
+
+// ---- S5 (closed-term evaluation, not a proof): the centering boundary of b -> int128.  Finding lanes whose CRT sum hits
+// exactly (Q-1)/2 is a 120-bit CRT inversion, out of reach of the SAT back end, so the boundary values are fed concretely:
+// v in {(Q-1)/2, (Q+1)/2 (== -(Q-1)/2), 0, 1, -1, Q-1 (== -1)} as reduced and as unreduced (+ multiple of q_k) lanes.
+void h_s5_b_to_znx128_boundary(void) {
+  const i128 half = (QQ - 1) / 2;
+  const i128 vs[6] = {half, half + 1, 0, 1, QQ - 1, half - 1};
+  const i128 want[6] = {half, -half, 0, 1, -1, half - 1};
+  for (int t = 0; t < 6; ++t) for (int unred = 0; unred < 2; ++unred) {
+    uint64_t x[4]; __int128_t r[1];
+    for (int k = 0; k < 4; ++k) x[k] = (uint64_t)(vs[t] % (i128)QS[k]) + (unred ? 3 * QS[k] * (uint64_t)0xFFFFFFFFULL : 0);
+    q120_b_to_znx128_simple(1, r, (const q120b*)x);
+    __CPROVER_assert(r[0] == want[t], "b_to_znx128 at the centering boundary: (Q-1)/2 stays, (Q+1)/2 becomes -(Q-1)/2 (unique centered representative)");
+  }
+  VACUITY_CANARY();
+}
